@@ -32,6 +32,25 @@ def stmt_regs(s):
         used = [s[1]]
         for b in s[2]: used += stmt_regs(b)[1]
         return None, used
+    if op == "bset": return None, [s[2]]
+    if op == "bget": return s[1], []
+    if op == "breakif": return None, [s[1]]
+    if op == "oif":
+        used = [s[1]]
+        for b in s[2]: used += stmt_regs(b)[1]
+        for cb, cr, body in s[3]:
+            used.append(cr)
+            for b in cb + body: used += stmt_regs(b)[1]
+        for b in (s[4] or []): used += stmt_regs(b)[1]
+        return None, used
+    if op == "owhile":
+        used = [s[2]]
+        for b in s[1] + s[4]: used += stmt_regs(b)[1]
+        return None, used
+    if op == "ofor":
+        used = [s[3]]
+        for b in s[6]: used += stmt_regs(b)[1]
+        return None, used
     if op == "itelazy":
         used = [s[2], s[4], s[6]]
         for b in s[3] + s[5]: used += stmt_regs(b)[1]
@@ -84,13 +103,23 @@ def op_hist(cases):
             elif s[0] == "itelazy":
                 h["itelazy"] += 1
                 walk(s[3]); walk(s[5])
+            elif s[0] == "oif":
+                h["oif"] += 1; walk(s[2])
+                for cb, cr, body in s[3]:
+                    h["elif"] += 1; walk(cb); walk(body)
+                if s[4] is not None:
+                    h["else"] += 1; walk(s[4])
+            elif s[0] == "owhile":
+                h["owhile"] += 1; walk(s[1]); walk(s[4])
+            elif s[0] == "ofor":
+                h["ofor"] += 1; walk(s[6])
             else: h[s[0]] += 1
     for c in cases: walk(c["prog"])
     return dict(h)
 
 
-def run(pid, tier, seed, profile, oracle, n_quick, n_thorough, variants=None, level="proof", extra_assumptions=None,
-        require_props=True, post=None, mask=1 | 2 | 4 | 8 | 32 | 64, mutation_oracle=False):
+def run(pid, tier, seed, profile, oracle, n_quick, n_thorough, variants=None, casegen=None, level="proof", extra_assumptions=None,
+        require_props=True, post=None, mask=1 | 2 | 4 | 8 | 32 | 64, mutation_oracle=False, shrink_budget=None):
     """oracle(case, rec, group) -> list of violation dicts (kind='oracle').
     variants(case, rnd) -> list of extra cases derived from `case` (same program, other inputs/flags); the
     group of records of one program is passed to the oracle of its first member."""
@@ -106,7 +135,7 @@ def run(pid, tier, seed, profile, oracle, n_quick, n_thorough, variants=None, le
     groups = []          # list of lists of indexes
     for i in range(ncorpus): groups.append([i])
     while len(cases) < n + ncorpus:
-        c = gen.case()
+        c = casegen(rnd) if casegen else gen.case()
         idx = [len(cases)]
         cases.append(c)
         if variants:
@@ -155,7 +184,7 @@ def run(pid, tier, seed, profile, oracle, n_quick, n_thorough, variants=None, le
         key = (v.get("op"), v.get("what"))
         seen[key] += 1
         if seen[key] <= 3: viol.append(v)
-    for i in confirmed[:5]:
+    for i in confirmed[:3]:
         bits = codes[i] & mask
         parts = [nm for b, nm in ((1, "variables/witness"), (2, "constraints"), (4, "results"), (8, "exception/globals"), (32, "scoping"), (64, "shape"), (128, "value identity at emission (vjustb)")) if bits & b]
         case = dict(cfg=cases[i]["cfg"], prog=cases[i]["prog"], ins=cases[i]["ins"])
@@ -163,7 +192,7 @@ def run(pid, tier, seed, profile, oracle, n_quick, n_thorough, variants=None, le
             r = progs.run_impl_cases([cand])
             cd, _ = progs.run_model_compare([cand], r)
             return bool(cd[0])
-        small = shrink(case, fails, budget=12 if tier == "quick" else 40)
+        small = shrink(case, fails, budget=shrink_budget if shrink_budget is not None else (12 if tier == "quick" else 40))
         viol.append(dict(kind="correspondence", concrete=False,
                          what="model and implementation traces differ (%s)" % ", ".join(parts),
                          detail=json.dumps(dict(case=small, impl_exn=recs[i]["exn"], impl_msg=recs[i]["msg"]))[:3000]))
@@ -187,7 +216,7 @@ def run(pid, tier, seed, profile, oracle, n_quick, n_thorough, variants=None, le
                moduli=dict(collections.Counter(str(c["cfg"]["p"])[:12] for c in cases)),
                bitlengths=dict(collections.Counter(c["cfg"]["n"] for c in cases)),
                error_checking_off=sum(1 for c in cases if c["cfg"]["ign"]), cases_with_guarded_region=guarded,
-               oracle_violations=len(oviol))
+               oracle_violations=len(oviol), programs=len(cases), disagreements_checked=len(confirmed) + len(oviol))
     if post:
         more = post(cov, cases, recs)
         if more: viol += more
